@@ -95,7 +95,8 @@ def run(cx: Cx):
             key = info.get('var') if info.get('kind') == 'iter' else info.get('index')
             ag = Sub(agents, key) if info.get('kind') == 'iter' and strip_versions(lp.data.get('iter')) == agents else \
                 (Sub(info['seq'], info['index']) if info.get('kind') == 'items' else info.get('var'))
-            calls = [e for e in seg if e.kind == 'call' and e.data.get('callee_name') == '.agentFunc' and e.data.get('recv') == self_s]
+            calls = [e for e in seg if e.kind == 'call' and ((e.data.get('callee_name') == '.agentFunc' and e.data.get('recv') == self_s) or
+                                                          strip_versions(e.data.get('func_term')) == Attr(self_s, 'agentFunc'))]
             if len(calls) != 1 or calls[0].data.get('args') != (ag,):
                 viol('R-GUARD', 'agentFunc-called-once-per-agent', f"collect() must call agentFunc exactly once on each resident agent "
                      f"(found {[repr(c.data.get('args')) for c in calls]})", cx.where(col, it_ev.line))
@@ -121,7 +122,8 @@ def run(cx: Cx):
             continue
         # composite
         cf_none = AIs(Attr(self_s, 'compositeFunc'), Const(None))
-        cc = [e for e in evs if e.kind == 'call' and e.data.get('callee_name') == '.compositeFunc']
+        cc = [e for e in evs if e.kind == 'call' and (e.data.get('callee_name') == '.compositeFunc' or
+                                                     strip_versions(e.data.get('func_term')) == Attr(self_s, 'compositeFunc'))]
         upd = [e for e in evs if e.kind == 'store' and strip_versions(e.data.get('target')) == D and e.data.get('store') == 'update']
         if implies(p.cond, cf_none) is None:
             if cc or upd:
